@@ -12,16 +12,63 @@ import vlib
 from safeds_stubgen.stubs_generator import StubsStringGenerator, create_stub_files, generate_stub_data
 
 
+def traced_create(gen, data, out: Path) -> list:
+    """create_stub_files with every Path.open recorded: [out-relative path, mode, text written]"""
+    writes = []
+    orig_open = Path.open
+
+    class _Rec:
+        def __init__(self, f, rec):
+            self._f, self._rec = f, rec
+        def write(self, t):
+            self._rec[2] += t
+            return self._f.write(t)
+        def __enter__(self):
+            self._f.__enter__()
+            return self
+        def __exit__(self, *a):
+            return self._f.__exit__(*a)
+        def __getattr__(self, n):
+            return getattr(self._f, n)
+
+    def open_wrapper(self, mode="r", *a, **k):
+        f = orig_open(self, mode, *a, **k)
+        if any(c in mode for c in "wa") and str(self).endswith(".sdsstub"):
+            import os
+            rel = os.path.relpath(os.path.normpath(str(self)).replace("//", "/"), str(out))
+            rec = [rel, mode, ""]
+            writes.append(rec)
+            return _Rec(f, rec)
+        return f
+
+    Path.open = open_wrapper  # type: ignore[method-assign]
+    try:
+        create_stub_files(stubs_generator=gen, stubs_data=data, out_path=out)
+    finally:
+        Path.open = orig_open  # type: ignore[method-assign]
+    return writes
+
+
 def impl_generate(api, nc: bool, out: Path, gens: int = 1) -> dict:
     res: dict = {"exc": None, "stub_data": [], "outside": [], "stubs": {}, "gens": []}
     try:
+        before = api.to_dict()
         for _ in range(gens):
             gen = StubsStringGenerator(api=api, convert_identifiers=nc)
             data = generate_stub_data(stubs_generator=gen, out_path=out)
             res["gens"].append([[str(Path(d).relative_to(out)), n, t, bool(p)] for d, n, t, p in data])
         res["stub_data"] = res["gens"][-1]
         res["outside"] = sorted(gen.classes_outside_package)
-        create_stub_files(stubs_generator=gen, stubs_data=data, out_path=out)
+        res["writes"] = traced_create(gen, data, out)
+        after = api.to_dict()
+        if after != before:
+            changed = []
+            for key in before:
+                if before[key] != after[key] and isinstance(before[key], list):
+                    for x, y in zip(before[key], after[key]):
+                        if x != y:
+                            changed.append({"list": key, "id": x.get("id"), "fields": sorted(k for k in x if x.get(k) != y.get(k))})
+            res["api_changed"] = changed[:5]
         for p in sorted(out.rglob("*")):
             if p.is_file():
                 res["stubs"][str(p.relative_to(out))] = p.read_text(encoding="utf-8")
